@@ -1,2 +1,270 @@
+// ops: traversal, local ij, faces, edges, vertexes, compaction
+#include <stdio.h>
+#include <stdlib.h>
+#include <string.h>
+#include "h3api.h"
+#include "h3Index.h"
+#include "algos.h"
+#include "coordijk.h"
+#include "faceijk.h"
+#include "localij.h"
+#include "vertex.h"
+#include "baseCells.h"
 #include "drv_util.h"
-int ops_trav(int n, char **a) { (void)n; (void)a; return 0; }
+#include "valloc.h"
+
+H3Error verif_vertexRotations(H3Index cell, int *out);
+
+static void outPairs(const H3Index *o, const int *d, int64_t n) {
+    printf("%" PRId64, n);
+    for (int64_t i = 0; i < n; i++) printf(" %" PRIx64 " %d", o[i], d[i]);
+}
+static int parseHList(int n, char **a, int at, H3Index **cells, int64_t *cnt) {
+    // a[at] = count, then cells
+    if (at >= n) return -1;
+    int64_t k = pI(a[at]);
+    if (at + 1 + k > n) return -1;
+    *cells = xbuf((size_t)k, sizeof(H3Index));
+    for (int64_t i = 0; i < k; i++) (*cells)[i] = pH(a[at + 1 + i]);
+    *cnt = k;
+    return at + 1 + (int)k;
+}
+
+int ops_trav(int n, char **a) {
+    const char *op = a[0];
+    if (isop(op, "nbr") && n == 4) {
+        int rot = (int)pI(a[3]); H3Index out = 0;
+        H3Error e = h3NeighborRotations(pH(a[1]), (Direction)pI(a[2]), &rot, &out);
+        if (e) outErr(e); else printf("ok %" PRIx64 " %d\n", out, rot);
+        return 1;
+    }
+    if (isop(op, "dirfor") && n == 3) { printf("ok %d\n", (int)directionForNeighbor(pH(a[1]), pH(a[2]))); return 1; }
+    if (isop(op, "maxdisk") && n == 2) {
+        int64_t out = 0; H3Error e = H3_EXPORT(maxGridDiskSize)((int)pI(a[1]), &out);
+        if (e) outErr(e); else printf("ok %" PRId64 "\n", out);
+        return 1;
+    }
+    if (isop(op, "numcells") && n == 2) {
+        int64_t out = 0; H3Error e = H3_EXPORT(getNumCells)((int)pI(a[1]), &out);
+        if (e) outErr(e); else printf("ok %" PRId64 "\n", out);
+        return 1;
+    }
+    if ((isop(op, "disk") || isop(op, "disk0") || isop(op, "disksafe") || isop(op, "diskunsafe")) && n == 3) {
+        H3Index h = pH(a[1]); int k = (int)pI(a[2]);
+        int64_t sz = 0; H3Error e = H3_EXPORT(maxGridDiskSize)(k, &sz);
+        if (e) {
+            // the entry points that validate k themselves must report it too
+            if (isop(op, "diskunsafe")) {
+                H3Index o1[1]; int d1[1];
+                H3Error e2 = H3_EXPORT(gridDiskDistancesUnsafe)(h, k, o1, d1);
+                if (e2) outErr(e2); else printf("ok-unexpected\n");
+            } else outErr(e);
+            return 1;
+        }
+        H3Index *out = xbuf((size_t)sz, sizeof(H3Index));
+        int *dist = xbuf((size_t)sz, sizeof(int));
+        if (isop(op, "disk")) e = H3_EXPORT(gridDiskDistances)(h, k, out, dist);
+        else if (isop(op, "disk0")) e = H3_EXPORT(gridDisk)(h, k, out);
+        else if (isop(op, "disksafe")) e = H3_EXPORT(gridDiskDistancesSafe)(h, k, out, dist);
+        else e = H3_EXPORT(gridDiskDistancesUnsafe)(h, k, out, dist);
+        if (e) outErr(e);
+        else {
+            printf("ok ");
+            if (isop(op, "disk0")) outHs(out, sz); else outPairs(out, dist, sz);
+            printf("\n");
+        }
+        free(out); free(dist);
+        return 1;
+    }
+    if (isop(op, "ring") && n == 3) {
+        H3Index h = pH(a[1]); int k = (int)pI(a[2]);
+        int64_t sz = k == 0 ? 1 : (k > 0 ? 6 * (int64_t)k : 0);
+        H3Index *out = xbuf((size_t)sz, sizeof(H3Index));
+        H3Error e = H3_EXPORT(gridRingUnsafe)(h, k, out);
+        if (e) outErr(e); else { printf("ok "); outHs(out, sz); printf("\n"); }
+        free(out);
+        return 1;
+    }
+    if (isop(op, "areneighbors") && n == 3) {
+        int out = -7; H3Error e = H3_EXPORT(areNeighborCells)(pH(a[1]), pH(a[2]), &out);
+        if (e) outErr(e); else printf("ok %d\n", out);
+        return 1;
+    }
+    if (isop(op, "edge") && n == 3) {
+        H3Index out = 0; H3Error e = H3_EXPORT(cellsToDirectedEdge)(pH(a[1]), pH(a[2]), &out);
+        if (e) outErr(e); else printf("ok %" PRIx64 "\n", out);
+        return 1;
+    }
+    if (isop(op, "edgeorigin") && n == 2) {
+        H3Index out = 0; H3Error e = H3_EXPORT(getDirectedEdgeOrigin)(pH(a[1]), &out);
+        if (e) outErr(e); else printf("ok %" PRIx64 "\n", out);
+        return 1;
+    }
+    if (isop(op, "edgedest") && n == 2) {
+        H3Index out = 0; H3Error e = H3_EXPORT(getDirectedEdgeDestination)(pH(a[1]), &out);
+        if (e) outErr(e); else printf("ok %" PRIx64 "\n", out);
+        return 1;
+    }
+    if (isop(op, "edgevalid") && n == 2) { printf("ok %d\n", H3_EXPORT(isValidDirectedEdge)(pH(a[1]))); return 1; }
+    if (isop(op, "edgecells") && n == 2) {
+        H3Index *od = xbuf(2, sizeof(H3Index));
+        H3Error e = H3_EXPORT(directedEdgeToCells)(pH(a[1]), od);
+        if (e) outErr(e); else printf("ok %" PRIx64 " %" PRIx64 "\n", od[0], od[1]);
+        free(od);
+        return 1;
+    }
+    if (isop(op, "edgesfrom") && n == 2) {
+        H3Index *ed = xbuf(6, sizeof(H3Index));
+        H3Error e = H3_EXPORT(originToDirectedEdges)(pH(a[1]), ed);
+        if (e) outErr(e); else { printf("ok "); outHs(ed, 6); printf("\n"); }
+        free(ed);
+        return 1;
+    }
+    if (isop(op, "vrot") && n == 2) {
+        int out = 0; H3Error e = verif_vertexRotations(pH(a[1]), &out);
+        if (e) outErr(e); else printf("ok %d\n", out);
+        return 1;
+    }
+    if (isop(op, "vnumfordir") && n == 3) { printf("ok %d\n", vertexNumForDirection(pH(a[1]), (Direction)pI(a[2]))); return 1; }
+    if (isop(op, "dirforvnum") && n == 3) { printf("ok %d\n", (int)directionForVertexNum(pH(a[1]), (int)pI(a[2]))); return 1; }
+    if (isop(op, "c2v") && n == 3) {
+        H3Index out = 0; H3Error e = H3_EXPORT(cellToVertex)(pH(a[1]), (int)pI(a[2]), &out);
+        if (e) outErr(e); else printf("ok %" PRIx64 "\n", out);
+        return 1;
+    }
+    if (isop(op, "c2vs") && n == 2) {
+        H3Index *vs = xbuf(6, sizeof(H3Index));
+        H3Error e = H3_EXPORT(cellToVertexes)(pH(a[1]), vs);
+        if (e) outErr(e); else { printf("ok "); outHs(vs, 6); printf("\n"); }
+        free(vs);
+        return 1;
+    }
+    if (isop(op, "vvalid") && n == 2) { printf("ok %d\n", H3_EXPORT(isValidVertex)(pH(a[1]))); return 1; }
+    if (isop(op, "lijk") && n == 3) {
+        CoordIJK c = {0, 0, 0}; H3Error e = cellToLocalIjk(pH(a[1]), pH(a[2]), &c);
+        if (e) outErr(e); else printf("ok %d %d %d\n", c.i, c.j, c.k);
+        return 1;
+    }
+    if (isop(op, "ijk2cell") && n == 5) {
+        CoordIJK c = {(int)pI(a[2]), (int)pI(a[3]), (int)pI(a[4])}; H3Index out = 0;
+        H3Error e = localIjkToCell(pH(a[1]), &c, &out);
+        if (e) outErr(e); else printf("ok %" PRIx64 "\n", out);
+        return 1;
+    }
+    if (isop(op, "lij") && n == 4) {
+        CoordIJ c = {0, 0}; H3Error e = H3_EXPORT(cellToLocalIj)(pH(a[1]), pH(a[2]), (uint32_t)pI(a[3]), &c);
+        if (e) outErr(e); else printf("ok %d %d\n", c.i, c.j);
+        return 1;
+    }
+    if (isop(op, "ij2cell") && n == 5) {
+        CoordIJ c = {(int)pI(a[2]), (int)pI(a[3])}; H3Index out = 0;
+        H3Error e = H3_EXPORT(localIjToCell)(pH(a[1]), &c, (uint32_t)pI(a[4]), &out);
+        if (e) outErr(e); else printf("ok %" PRIx64 "\n", out);
+        return 1;
+    }
+    if (isop(op, "dist") && n == 3) {
+        int64_t out = 0; H3Error e = H3_EXPORT(gridDistance)(pH(a[1]), pH(a[2]), &out);
+        if (e) outErr(e); else printf("ok %" PRId64 "\n", out);
+        return 1;
+    }
+    if (isop(op, "pathsize") && n == 3) {
+        int64_t out = 0; H3Error e = H3_EXPORT(gridPathCellsSize)(pH(a[1]), pH(a[2]), &out);
+        if (e) outErr(e); else printf("ok %" PRId64 "\n", out);
+        return 1;
+    }
+    if (isop(op, "path") && n == 3) {
+        int64_t sz = 0; H3Error e = H3_EXPORT(gridPathCellsSize)(pH(a[1]), pH(a[2]), &sz);
+        if (e) { outErr(e); return 1; }
+        H3Index *out = xbuf((size_t)sz, sizeof(H3Index));
+        e = H3_EXPORT(gridPathCells)(pH(a[1]), pH(a[2]), out);
+        if (e) outErr(e);  // slot contents after an error are unspecified; bounds are watched by ASan
+        else { printf("ok "); outHs(out, sz); printf("\n"); }
+        free(out);
+        return 1;
+    }
+    if (isop(op, "h2fijk") && n == 2) {
+        FaceIJK f; H3Error e = _h3ToFaceIjk(pH(a[1]), &f);
+        if (e) outErr(e); else printf("ok %d %d %d %d\n", f.face, f.coord.i, f.coord.j, f.coord.k);
+        return 1;
+    }
+    if (isop(op, "fijk2h") && n == 6) {
+        FaceIJK f = {(int)pI(a[1]), {(int)pI(a[2]), (int)pI(a[3]), (int)pI(a[4])}};
+        printf("ok %" PRIx64 "\n", _faceIjkToH3(&f, (int)pI(a[5])));
+        return 1;
+    }
+    if (isop(op, "overage") && n == 8) {
+        FaceIJK f = {(int)pI(a[1]), {(int)pI(a[2]), (int)pI(a[3]), (int)pI(a[4])}};
+        Overage ov = _adjustOverageClassII(&f, (int)pI(a[5]), (int)pI(a[6]), (int)pI(a[7]));
+        printf("ok %d %d %d %d %d\n", (int)ov, f.face, f.coord.i, f.coord.j, f.coord.k);
+        return 1;
+    }
+    if (isop(op, "verts") && n == 2) {
+        H3Index h = pH(a[1]); FaceIJK f; H3Error e = _h3ToFaceIjk(h, &f);
+        if (e) { outErr(e); return 1; }
+        int res = H3_GET_RESOLUTION(h); FaceIJK v[NUM_HEX_VERTS]; int nv;
+        if (H3_EXPORT(isPentagon)(h)) { _faceIjkPentToVerts(&f, &res, v); nv = NUM_PENT_VERTS; }
+        else { _faceIjkToVerts(&f, &res, v); nv = NUM_HEX_VERTS; }
+        printf("ok %d", res);
+        for (int i = 0; i < nv; i++) printf(" %d %d %d %d", v[i].face, v[i].coord.i, v[i].coord.j, v[i].coord.k);
+        printf("\n");
+        return 1;
+    }
+    if (isop(op, "maxfaces") && n == 2) {
+        int out = 0; H3Error e = H3_EXPORT(maxFaceCount)(pH(a[1]), &out);
+        if (e) outErr(e); else printf("ok %d\n", out);
+        return 1;
+    }
+    if (isop(op, "faces") && n == 2) {
+        H3Index h = pH(a[1]); int cnt = 0; H3_EXPORT(maxFaceCount)(h, &cnt);
+        int *out = xbuf((size_t)cnt, sizeof(int));
+        H3Error e = H3_EXPORT(getIcosahedronFaces)(h, out);
+        if (e) outErr(e);
+        else { printf("ok %d", cnt); for (int i = 0; i < cnt; i++) printf(" %d", out[i]); printf("\n"); }
+        free(out);
+        return 1;
+    }
+    if (isop(op, "compact")) {
+        H3Index *cells; int64_t cnt;
+        if (parseHList(n, a, 1, &cells, &cnt) < 0) return 0;
+        H3Index *out = xbuf((size_t)cnt, sizeof(H3Index));
+        H3Error e = H3_EXPORT(compactCells)(cells, out, cnt);
+        if (e) outErr(e); else { printf("ok "); outHs(out, cnt); printf("\n"); }
+        free(out); free(cells);
+        return 1;
+    }
+    if (isop(op, "uncompact")) {
+        H3Index *cells; int64_t cnt;
+        int at = parseHList(n, a, 1, &cells, &cnt);
+        if (at < 0 || at + 2 != n) return 0;
+        int res = (int)pI(a[at]); int64_t cap = pI(a[at + 1]);
+        H3Index *out = xbuf((size_t)(cap > 0 ? cap : 0), sizeof(H3Index));
+        H3Error e = H3_EXPORT(uncompactCells)(cells, cnt, out, cap, res);
+        if (e) outErr(e);
+        else { int64_t w = cap > 0 ? cap : 0; while (w > 0 && out[w - 1] == 0) w--; printf("ok "); outHs(out, w); printf("\n"); }
+        free(out); free(cells);
+        return 1;
+    }
+    if (isop(op, "uncompactsize")) {
+        H3Index *cells; int64_t cnt;
+        int at = parseHList(n, a, 1, &cells, &cnt);
+        if (at < 0 || at + 1 != n) return 0;
+        int64_t out = 0; H3Error e = H3_EXPORT(uncompactCellsSize)(cells, cnt, (int)pI(a[at]), &out);
+        if (e) outErr(e); else printf("ok %" PRId64 "\n", out);
+        free(cells);
+        return 1;
+    }
+    if (isop(op, "acompact") && n >= 4) {
+        H3Index *cells; int64_t cnt;
+        if (parseHList(n, a, 3, &cells, &cnt) < 0) return 0;
+        H3Index *out = xbuf((size_t)cnt, sizeof(H3Index));
+        verif_alloc_reset(); verif_alloc_trace_on = 1;
+        verif_alloc_fail_at = pI(a[1]); verif_alloc_fail_from = (int)pI(a[2]);
+        H3Error e = H3_EXPORT(compactCells)(cells, out, cnt);
+        verif_alloc_fail_at = 0; verif_alloc_trace_on = 0;
+        if (e) printf("err %d", (int)e); else printf("ok");
+        printf(" live=%ld calls=%ld | %s\n", verif_alloc_live, verif_alloc_calls, verif_alloc_trace);
+        free(out); free(cells);
+        return 1;
+    }
+    return 0;
+}
